@@ -275,7 +275,7 @@ func c17RingExec(c c17RingCase) kit.Outcome {
 		}
 	}
 	if ties {
-		o.Classes = append(o.Classes, "hash-tie-between-nodes")
+		o.Classes = append(o.Classes, "hash-tie-between-nodes"+sfx)
 	}
 
 	// Different sets => different signatures.
